@@ -64,10 +64,6 @@ def _direct_capture(tree, fn, what):
     return len(own) == 1 and not fn.decorator_list and imported and not rebound
 
 
-def _has_stmt(fn, code):
-    return any(_same(s, code) for s in fn.body)
-
-
 def gen_traceback():
     tb = _module("_util/traceback.py")
     plan = _module("_plan.py")
@@ -217,24 +213,55 @@ def render_symbolic_traceback(stack_frame):
         "run": (runm, _find_func(runm, "run", F)),
     }
     direct = {k: _direct_capture(t, fn, k) for k, (t, fn) in sites.items()}
-    # what the captured frame is used for at each site
+    # what the captured frame is used for at each site.  Only the threading of the frame is pinned here, not the
+    # rest of these functions (argument binding, edge keys, scopes, … belong to other properties).
+    def calls_to(fn, *attrs):
+        return [n for n in ast.walk(fn) if isinstance(n, ast.Call) and isinstance(n.func, ast.Attribute) and n.func.attr in attrs]
+
+    def first_arg_is(call, code):
+        return bool(call.args) and _same(call.args[0], code)
+
+    def kw_is(call, kw, code):
+        return any(k.arg == kw and _same(k.value, code) for k in call.keywords)
+
+    def ctor_calls(fn, name):
+        return [n for n in ast.walk(fn) if isinstance(n, ast.Call) and isinstance(n.func, ast.Name) and n.func.id == name]
+
+    def assigned_once_from_capture(fn, var):
+        asg = [n for n in ast.walk(fn) if isinstance(n, (ast.Assign, ast.AugAssign, ast.AnnAssign, ast.NamedExpr, ast.For, ast.comprehension))
+               and any(isinstance(t, ast.Name) and t.id == var for t in ast.walk(
+                   n.target if hasattr(n, "target") else ast.Tuple(elts=list(n.targets), ctx=ast.Store())))]
+        return len(asg) == 1 and isinstance(asg[0], ast.Assign) and asg[0] in fn.body and _same(asg[0], f"{var} = get_stack_frame()")
+
+    def param_not_rebound(fn, var):
+        return not any(isinstance(n, ast.Name) and n.id == var and isinstance(n.ctx, (ast.Store, ast.Del)) for n in ast.walk(fn))
+
+    f_call, f_gather, f_unpack = sites["planCall"][1], sites["planGather"][1], sites["planUnpack"][1]
+    f_add, f_source, f_run = sites["registryAdd"][1], sites["registrySource"][1], sites["run"][1]
+    c1 = calls_to(f_call, "_call")
+    c2 = calls_to(f_gather, "_gather")
+    c3 = calls_to(f_unpack, "_call")
+    rv_add = ctor_calls(f_add, "RegistryValue")
+    c5 = calls_to(f_source, "_call")
+    rv_src = ctor_calls(f_source, "RegistryValue")
+    c6 = calls_to(f_run, "_gather", "gather", "_call", "call")
     uses = {
-        "planCall": _same(sites["planCall"][1].body[-1], "return self._call(get_stack_frame(), fn, *args, **kwargs)"),
-        "planGather": _same(sites["planGather"][1].body[-1], "return self._gather(get_stack_frame(), value)"),
-        "planUnpack": _same(sites["planUnpack"][1].body[-3:], '''
-stack_frame = get_stack_frame()
-t = self._call(stack_frame, _builtins.unpack, iterable, length)
-return tuple(self._call(stack_frame, operator.getitem, t, index) for index in range(length))
-'''),
-        "registryAdd": _same(sites["registryAdd"][1].body[-1],
-                             "self.mapping[node] = RegistryValue(value_store, is_source=False, stack_frame=get_stack_frame())"),
-        "registrySource": _same(sites["registrySource"][1].body[-4:], '''
-stack_frame = get_stack_frame()
-node = plan._call(stack_frame, source)
-self.mapping[node] = RegistryValue(value_store, is_source=True, stack_frame=stack_frame)
-return node
-'''),
-        "run": _has_stmt(sites["run"][1], "output_node = plan._gather(get_stack_frame(), output) if output is not None else None"),
+        "planCall": len(c1) == 1 and first_arg_is(c1[0], "get_stack_frame()") and isinstance(f_call.body[-1], ast.Return)
+        and f_call.body[-1].value is c1[0] and not calls_to(f_call, "_gather", "gather", "call"),
+        "planGather": len(c2) == 1 and first_arg_is(c2[0], "get_stack_frame()") and isinstance(f_gather.body[-1], ast.Return)
+        and f_gather.body[-1].value is c2[0] and not calls_to(f_gather, "_call", "gather", "call"),
+        "planUnpack": assigned_once_from_capture(f_unpack, "stack_frame") and len(c3) == 2
+        and all(first_arg_is(c, "stack_frame") for c in c3) and not calls_to(f_unpack, "_gather", "gather", "call")
+        and any(_same(c.args[1], "_builtins.unpack") for c in c3 if len(c.args) > 1)
+        and any(_same(c.args[1], "operator.getitem") for c in c3 if len(c.args) > 1),
+        "registryAdd": len(rv_add) == 1 and kw_is(rv_add[0], "stack_frame", "get_stack_frame()")
+        and any(isinstance(st, ast.Assign) and st.value is rv_add[0] and ast.unparse(st.targets[0]) == "self.mapping[node]" for st in f_add.body),
+        "registrySource": assigned_once_from_capture(f_source, "stack_frame") and len(c5) == 1
+        and first_arg_is(c5[0], "stack_frame") and len(c5[0].args) > 1 and _same(c5[0].args[1], "source")
+        and len(rv_src) == 1 and kw_is(rv_src[0], "stack_frame", "stack_frame") and kw_is(rv_src[0], "is_source", "True")
+        and not calls_to(f_source, "_gather", "gather", "call"),
+        "run": len(c6) == 1 and c6[0].func.attr == "_gather" and first_arg_is(c6[0], "get_stack_frame()")
+        and len(c6[0].args) == 2 and _same(c6[0].args[1], "output"),
     }
     # nested symbolic calls receive the frame that was already captured
     nested = {
@@ -244,51 +271,47 @@ return node
         "storeCall": False,
     }
     pc = _method(plan, "Plan", "_call")
-    whole_call = _same(pc, '''
-def _call(self, stack_frame, fn, *args, **kwargs):
-    call = Call(fn, scope=self._scope, stack_frame=stack_frame)
-    self.graph.add_node(call)
-    for index, arg in enumerate(args):
-        self.graph.add_edge(self._gather(stack_frame, arg), call, PositionalArg(index))
-    for index, (name, arg) in enumerate(kwargs.items()):
-        self.graph.add_edge(self._gather(stack_frame, arg), call, KeywordArg(name, index))
-    return call
-''')
-    nested["callNode"] = nested["callArgGather"] = nested["callKwargGather"] = whole_call
+    pc_args = [a_.arg for a_ in pc.args.args]
+    mk = ctor_calls(pc, "Call")
+    gs_in_call = calls_to(pc, "_gather")
+    no_capture_in_call = not any(_is_capture(n) for n in ast.walk(pc)) and param_not_rebound(pc, "stack_frame") \
+        and pc_args[:2] == ["self", "stack_frame"] and not calls_to(pc, "gather", "call", "_call")
+    nested["callNode"] = no_capture_in_call and len(mk) == 1 and kw_is(mk[0], "stack_frame", "stack_frame") \
+        and isinstance(pc.body[-1], ast.Return) and any(isinstance(st, ast.Assign) and st.value is mk[0]
+                                                   and ast.unparse(st.targets[0]) == ast.unparse(pc.body[-1].value) for st in pc.body)
+    # one _gather per positional and one per keyword argument, each handed the same frame
+    loops = [st for st in pc.body if isinstance(st, ast.For)]
+    pos = [c for lp in loops if "kwargs" not in ast.unparse(lp.iter) for c in calls_to(lp, "_gather")]
+    kws = [c for lp in loops if "kwargs" in ast.unparse(lp.iter) for c in calls_to(lp, "_gather")]
+    nested["callArgGather"] = no_capture_in_call and len(pos) == 1 and first_arg_is(pos[0], "stack_frame")
+    nested["callKwargGather"] = no_capture_in_call and len(kws) == 1 and first_arg_is(kws[0], "stack_frame") \
+        and len(gs_in_call) == 2
     pg = _method(plan, "Plan", "_gather")
-    nested["gatherNested"] = _same(pg, '''
-def _gather(self, stack_frame, value):
-    def recurse(root):
-        root_type = type(root)
-        gather_fn = GATHER_LOOKUP.get(root_type)
-        if gather_fn is not None:
-            items = root.items() if root_type is dict else root
-            children = [recurse(item) for item in items]
-            if any(isinstance(child, Node) for child in children):
-                return self._call(stack_frame, gather_fn, *children)
-        return root
-
-    value = recurse(value)
-    return value if isinstance(value, Node) else self.lit(value)
-''')
+    cg = calls_to(pg, "_call")
+    nested["gatherNested"] = (not any(_is_capture(n) for n in ast.walk(pg)) and param_not_rebound(pg, "stack_frame")
+                              and [a_.arg for a_ in pg.args.args][:2] == ["self", "stack_frame"]
+                              and len(cg) == 1 and first_arg_is(cg[0], "stack_frame")
+                              and not calls_to(pg, "gather", "call", "_gather"))
     avs = _find_func(cach, "_add_value_store", F)
-    nc = next((s for s in avs.body if isinstance(s, ast.FunctionDef) and s.name == "nested_call"), None)
-    nested_ok = nc is not None and _same(nc, '''
-def nested_call(*args):
-    call = plan._call(registry_value.stack_frame, *args)
-    if type(node) is Call:
-        call.scope = get_full_call_scope(node)
-    return call
-''')
+    nc = next((s_ for s_ in avs.body if isinstance(s_, ast.FunctionDef) and s_.name == "nested_call"), None)
+    nested_ok = False
+    if nc is not None:
+        inner = calls_to(nc, "_call")
+        nested_ok = (len(inner) == 1 and _same(inner[0].func, "plan._call") and first_arg_is(inner[0], "registry_value.stack_frame")
+                     and isinstance(nc.body[0], ast.Assign) and nc.body[0].value is inner[0]
+                     and isinstance(nc.body[-1], ast.Return) and _same(nc.body[-1].value, ast.unparse(nc.body[0].targets[0]))
+                     and not any(isinstance(n, ast.Attribute) and n.attr == "stack_frame" and isinstance(n.ctx, ast.Store)
+                                 for n in ast.walk(nc)))
     # every symbolic call created by _add_value_store goes through nested_call (no other _call / Call( in it)
     others = [n for n in ast.walk(avs) if isinstance(n, ast.Call) and (
         (isinstance(n.func, ast.Attribute) and n.func.attr in ("_call", "call", "gather", "_gather"))
         or (isinstance(n.func, ast.Name) and n.func.id == "Call"))]
-    reads = [n for n in ast.walk(avs) if isinstance(n, ast.Assign) and _same(
-        n, "read_node = nested_call(value_store.__class__.read, value_store_lit)")]
-    writes = [n for n in ast.walk(avs) if isinstance(n, ast.Assign) and _same(
-        n, "write_node = nested_call(value_store.__class__.write, value_store_lit, node)")]
-    nested["storeCall"] = bool(nested_ok and len(others) == 1 and len(reads) == 1 and len(writes) == 1)
+    uses_nested = [n for n in ast.walk(avs) if isinstance(n, ast.Call) and isinstance(n.func, ast.Name) and n.func.id == "nested_call"]
+    reads = [n for n in uses_nested if n.args and _same(n.args[0], "value_store.__class__.read")]
+    writes = [n for n in uses_nested if n.args and _same(n.args[0], "value_store.__class__.write")]
+    rv_param = any(a_.arg == "registry_value" for a_ in avs.args.args) and param_not_rebound(avs, "registry_value")
+    nested["storeCall"] = bool(nested_ok and rv_param and len(others) == 1 and len(reads) == 1 and len(writes) == 1
+                               and len(uses_nested) == 2)
     flags["registryValueStoresFrame"] = _same(_method(reg, "RegistryValue", "__init__"), '''
 def __init__(self, value_store, *, is_source, stack_frame):
     self.value_store = value_store
@@ -302,8 +325,10 @@ def __init__(self, fn, *, scope=(), stack_frame=None):
     super().__init__(scope=scope)
 ''')
     flags["storeEntriesFromRegistryMapping"] = any(
-        isinstance(n, ast.For) and _same(n.iter, "registry.mapping.items()") and any(
-            _same(s, "write_node, read_node = _add_value_store(plan, node, registry_value, is_stale=is_stale)") for s in n.body)
+        isinstance(n, ast.For) and _same(n.iter, "registry.mapping.items()")
+        and [x.id for x in ast.walk(n.target) if isinstance(x, ast.Name)] == ["node", "registry_value"] and any(
+            isinstance(c, ast.Call) and isinstance(c.func, ast.Name) and c.func.id == "_add_value_store" and len(c.args) >= 3
+            and _same(c.args[1], "node") and _same(c.args[2], "registry_value") for c in ast.walk(n))
         for n in ast.walk(_find_func(cach, "plan_with_value_stores", F)))
 
     # ---- the error path ----------------------------------------------------------------------------------------
@@ -332,13 +357,15 @@ def __init__(self, node):
 ''')
     pwc = _find_func(cach, "process_with_callbacks", F)
     flags["staleRaisesNodeErrorOfNode"] = False
-    flags["staleWrapsOnlyCalls"] = False
+    # Not part of `faithful` (nothing in C19 needs it; it is what makes finding F5 possible): nodes that are not
+    # calls are processed outside the try, so their failure is wrapped by the engine, with a non-Call node.
+    stale_non_calls_unwrapped = False
     if len(pwc.body) == 1 and isinstance(pwc.body[0], ast.If) and _same(pwc.body[0].test, "type(node) is Call"):
         i = pwc.body[0]
-        flags["staleWrapsOnlyCalls"] = _same(i.orelse, "process(node)")
+        stale_non_calls_unwrapped = bool(i.orelse) and not any(isinstance(n, ast.Try) for s_ in i.orelse for n in ast.walk(s_))
         t2 = next((s for s in i.body if isinstance(s, ast.Try)), None)
         flags["staleRaisesNodeErrorOfNode"] = bool(
-            t2 and _same(t2.body, "process(node)") and len(t2.handlers) == 1 and _same(t2.handlers[0].type, "Exception")
+            t2 and len(t2.handlers) == 1 and _same(t2.handlers[0].type, "Exception") and not t2.finalbody
             and _same(t2.handlers[0].body[-1], "raise NodeError(node) from exception"))
     pr = _find_func(_find_func(phys, "prep_run_physical", F), "process", F)
     flags["runRaisesNodeErrorOfNode"] = False
@@ -347,13 +374,13 @@ def __init__(self, node):
         flags["runProcessesOnlyCalls"] = True
         t3 = next((s for s in pr.body[0].body if isinstance(s, ast.Try)), None)
         flags["runRaisesNodeErrorOfNode"] = bool(
-            t3 and _same(t3.body, "bound_call.value.run(node.fn, retry)") and len(t3.handlers) == 1
+            t3 and len(t3.handlers) == 1
             and _same(t3.handlers[0].type, "Exception")
             and _same(t3.handlers[0].body[-1], "raise NodeError(node) from exception"))
     # the modified-time query sits in `process`, reached for EVERY registered node (Call or not)
     pns = _find_func(cach, "process_no_stale_ancestor", F)
     flags["mtimeQueriedForEveryRegisteredNode"] = any(
-        isinstance(n, ast.Call) and _same(n, "retry(value_store.get_modified_time)()") for n in ast.walk(pns)) and any(
+        isinstance(n, ast.Attribute) and n.attr == "get_modified_time" and _same(n.value, "value_store") for n in ast.walk(pns)) and any(
         _same(s, "value_store = registry.get(node)") for s in pns.body)
 
     for k, v in uses.items():
@@ -395,8 +422,11 @@ def __init__(self, node):
     out += ["deriving Repr", "", "def facts : Facts where"]
     out += [f"  {n} := {b(flags[n])}" for n in names]
     out += ["", "def Facts.faithful (k : Facts) : Bool :=", "  " + " && ".join(f"k.{n}" for n in names), "",
+            "/-- In the stale check, nodes that are not calls are processed outside the `try` that raises `NodeError(node)`",
+            "    (informational: the precondition of finding F5; not part of `faithful`). -/",
+            f"def staleNonCallsUnwrapped : Bool := {b(stale_non_calls_unwrapped)}", "",
             "end Uberjob.Gen.Traceback", ""]
-    info = {"flags": flags, "direct": direct, "nested": nested, "max_depth": max_depth, "initial_depth": initial_depth,
+    info = {"flags": flags, "stale_non_calls_unwrapped": stale_non_calls_unwrapped, "direct": direct, "nested": nested, "max_depth": max_depth, "initial_depth": initial_depth,
             "consts": consts,
             "source_hash": _h("".join(_dump(t) for t in (tb, plan, reg, cach, runm, errs, phys)))}
     return "\n".join(out), info
